@@ -24,7 +24,7 @@ def isr_clause(ctx):
     from props import C06
     rng = vlib.Rng(ctx.seed * 7 + 3)
     exe = C06.harness(ctx)
-    hs = [h for (name, base, calls) in C06.base_scenarios() if name in ('handler', 'lone-yielder', 'full-7', 'full-8', 'sleeper')
+    hs = [h for (name, base, calls) in C06.base_scenarios() if name in ('handler', 'lone-yielder', 'full-7', 'full-8', 'sleeper', 'kill-handler')
           for h in C06.placements(ctx, base, calls, 1, nested=False)]
     hs += [C06.gen_yielder(rng) for _ in range(120 if ctx.tier == 'quick' else 3000)] + [C06.gen_random(rng) for _ in range(250 if ctx.tier == 'quick' else 8000)]
     hs = [h for h in hs if C06.valid(h)]
@@ -34,11 +34,15 @@ def isr_clause(ctx):
     for i, h in enumerate(hs[:len(impl)]):
         why = C06.judge(impl[i], ver[i] if i < len(ver) else None)
         ctx.count(('isr', tuple(C06.lines_of(h))), nontrivial=C06.scripted_calls(h) > 0)
-        if why and ('oversleep' in why or why.startswith('crash')) and not ctx.violations:
+        # `lost-wakeup` / `lost-event` are verdicts at quiescence: the scheduler went idle - its last pass returned a sleep time -
+        # while an accepted interrupt-context request was still owed its dispatch: the clause "returns t whenever any fibre is
+        # runnable on return, including any interrupt-context run request that completed before the final check"
+        c03 = lambda w: bool(w) and ('oversleep' in w or w.startswith('crash') or w.startswith('lost-wakeup') or w.startswith('lost-event'))
+        if c03(why) and not ctx.violations:
             def fails(c):
                 im = C06.run_impl(exe, [c], 60); vv = C06.run_spec(ctx, im, 60)
                 w = C06.judge(im[0], vv[0] if vv else None)
-                return bool(w) and ('oversleep' in w or w.startswith('crash'))
+                return c03(w)
             small = C06.shrink(fails, h)
             ctx.violation({'obligation': 'returned wake-up time with interrupt-context requests inside fibre_scheduler_next (monitor Spec/IsrSpec.lean on the real code)',
                            'reason': why, 'ops': C06.lines_of(small), 'engine': 'isr', 'how_to_rerun': './check C06 --replay <this file> (same line protocol)'},
@@ -47,6 +51,62 @@ def isr_clause(ctx):
             n += 1
     ctx.cov['interrupt_clause_histories'] = len(hs)
     ctx.cov['interrupt_clause_histories_satisfying_monitor'] = n
+
+
+def idle_decision_probe(ctx):
+    """Interrupt requests that complete after the pass has taken its pick from the run queue (gap x of harness/h_isr.c:
+    the harness is linked with --wrap=list_extract) but before it returns.  Such a request completed before the pass's
+    final check - the check is the last thing the pass does before it decides how long the caller may sleep - so the pass
+    must return the time it was given.  Implementation only (the gap is not an atomic operation, the model has no such
+    step); judged by the property text."""
+    import re, vlib
+    from props import C06
+    rng = vlib.Rng(ctx.seed * 11 + 5)
+    exe = C06.harness(ctx)
+    hs = []
+    for call in ('A2', 'A1', 'E901', 'A3'):
+        for pre in (['run 1', 'next 10'], ['run 1', 'run 2', 'next 10', 'next 11'], ['isr A1', 'next 10'], ['run 3', 'next 4294967290']):
+            for T in (100, 2147483647, 4294967295, 4294967296 + 5):
+                t = T if 'next 4294967290' not in pre else 4294967295
+                hs.append(['reset', 'cfg 4 w w w', *pre, f'next {t} @x {call}', f'next {t + 1}'])
+    for _ in range(60 if ctx.tier == 'quick' else 1500):          # sleepers pending: without the final check the pass would return their due time
+        kinds = ' '.join(rng.choice(['w', 'w', 's%d' % rng.range(3, 40), 'y%d' % rng.range(1, 3)]) for _ in range(rng.range(2, 5)))
+        t0 = rng.choice([10, 2147483600, 4294967200, 8589934500])
+        h = ['reset', f'cfg {rng.choice([1, 2, 4])} {kinds}']
+        t = t0
+        for _ in range(rng.range(1, 4)):
+            h.append(rng.choice([f'run {rng.range(1, 3)}', f'isr A{rng.range(1, 3)}', f'next {t}']))
+            t += rng.range(0, 3)
+        h += [f'next {t}', f'next {t + 1} @x {rng.choice(["A1", "A2", "A3", "E7"])}', f'next {t + 2}']
+        hs.append(h)
+    lines = vlib.run_exe([exe], ''.join('\n'.join(h) + '\n--\n' for h in hs), 600)
+    impl = vlib.split_histories(lines)
+    if len(impl) < len(hs):
+        ctx.notes.append('idle-decision probe: the harness stopped early: ' + ' | '.join(lines[-3:])[:300])
+    bad, fired = None, 0
+    for h, out in zip(hs, impl):
+        lines = out if isinstance(out, list) else str(out).split('\n')
+        for l in lines:
+            m = re.search(r'\bX\b.*?=(\d)/\d+.*?next\((\d+)\):self=(-?\d+):wake=(\d+)', l)
+            if not m:
+                if l.startswith('!!'):
+                    bad = bad or (h, l, 'crash')
+                continue
+            fired += 1
+            if m.group(1) == '1' and m.group(3) == '-1' and int(m.group(4)) != int(m.group(2)) % (1 << 32):
+                bad = bad or (h, l, f'an interrupt request accepted after the scheduler took its pick from the run queue (nothing to dispatch) and before the pass '
+                              f'returned is not seen: the pass returns {m.group(4)} instead of the time {int(m.group(2)) % (1 << 32)} it was given')
+    ctx.cov['idle_decision_probe'] = {'histories': len(hs), 'interrupts_fired_at_the_gap': fired}
+    for h in hs:
+        ctx.count(('xprobe', tuple(h)))
+    if bad and not ctx.violations:
+        h, l, why = bad
+        ctx.violation({'obligation': 'returned wake-up time: an interrupt-context run request that completed before the pass\'s final check (real fibre.c, interrupt fired from a list_extract wrapper inside fibre_scheduler_next)',
+                       'reason': why, 'ops': h, 'observed': l, 'engine': 'isr (implementation only)',
+                       'how_to_rerun': 'h_isr (props.C06.harness) < ops'}, key='xprobe:' + ' | '.join(h))
+    elif fired == 0:
+        ctx.broken.append('correspondence: the idle-decision probe never fired (fibre_scheduler_next no longer takes its pick with list_extract(&kernel.runq)): '
+                          'interrupt requests between the dispatch decision and the return are not exercised')
 
 
 def run(ctx):
@@ -62,8 +122,24 @@ def run(ctx):
                  'C03', allow_extra_axioms=tie_ax)
     ctx.cov['tie_T_generated_units'] = {'MainLoopSeq': ['fibre_scheduler_main_loop (one iteration; time_now, fibre_scheduler_next, usleep external)']}
     if not ctx.violations and 'VERIF_OPT' not in os.environ and 'VERIF_CFG' not in os.environ:
+        idle_decision_probe(ctx)
         isr_clause(ctx)          # the extra passes (-O2 / no-atomics builds) repeat the scheduler histories only; C06 owns the interrupt engine
 
 
 def replay(ctx, path):
+    import json, re, vlib
+    r = json.load(open(path))
+    if str(r.get('key', '')).startswith('xprobe:'):
+        from props import C06
+        exe = C06.harness(ctx)
+        lines = vlib.run_exe([exe], '\n'.join(r['ops']) + '\n--\n', 60)
+        bad = False
+        for op, l in zip(r['ops'], lines):
+            print(f'{op:40s} -> {l}')
+            m = re.search(r'\bX\b.*?=(\d)/\d+.*?next\((\d+)\):self=(-?\d+):wake=(\d+)', l)
+            if m and m.group(1) == '1' and m.group(3) == '-1' and int(m.group(4)) != int(m.group(2)) % (1 << 32):
+                bad = True
+        if bad:
+            print(f'VIOLATION property=C03 replay={path}')
+        return 1 if bad else 0
     return sc.replay_sched(ctx, path)
